@@ -186,7 +186,7 @@ def run(chk, build):
         else:
             dt = r.random() < 0.3
             gg = gen.Gen(r.randrange(10 ** 9), datetime=dt)
-            s = gg.literal_heavy() if i % 12 == 5 else gg.family() if i % 12 == 9 else gg.variants() if i % 12 in (3, 11) else gg.samples(depth=3)
+            s = gg.literal_heavy() if i % 12 == 5 else gg.family() if i % 12 == 9 else gg.variants() if i % 12 == 3 else gg.pseudo_merge() if i % 12 == 11 else gg.samples(depth=3)
             if i % 8 == 6:
                 s = gg.type_twin(s)
             o = {"cmp": r.choice([None, None, [("exact",)], [("percent", 0.5)], [("number", 2)]]), "rn": RN6 if dt else RN3,
